@@ -129,7 +129,7 @@ def dictFindAux : Nat → Heap → List (Val × Val) → Val → Option (Option 
     | none => none
 end
 
-def eqFuel (h : Heap) : Nat := 64 + 4 * h.length
+def eqFuel (h : Heap) : Nat := 64 + 4 * h.size
 
 def pyEq' (h : Heap) (a b : Val) : R Bool :=
   match pyEq (eqFuel h) h a b with
